@@ -254,6 +254,126 @@ def py_def(desc):
     return sd
 
 
+def expand_pool(step):
+    """a step with every {"pool": k} reference replaced by the pool entry (for the model and the oracle)"""
+    pool = step.get("pool") or []
+
+    def ex(spec):
+        return [[k, pool[v["pool"]] if isinstance(v, dict) and "pool" in v else v] for k, v in spec]
+
+    out = dict(step)
+    out.pop("pool", None)
+    if step.get("types") is not None:
+        out["types"] = [[t, ex(sp)] for t, sp in step["types"]]
+    out["relations"] = [[p, [[c, ex(sp)] for c, sp in cs]] for p, cs in step["relations"]]
+    return out
+
+
+def reconfigure(obj, j):
+    """set every public attribute of a live randomizer to the configuration j (same class)"""
+    k = j["R"]
+    obj.probability = fl(j["p"])
+    if k == "RangeI":
+        obj.min, obj.max, obj.none_value = j["lo"], j["hi"], py_value(j["none"])
+    elif k == "RangeF":
+        obj.min, obj.max, obj.none_value = fl(j["lo"]), fl(j["hi"]), py_value(j["none"])
+    elif k == "Date":
+        days = j["days"] if j.get("days") is not None else j["max"] - j["min"]
+        obj.min = datetime.date.fromordinal(j["min"])
+        obj.delta_days = days
+        obj.max = obj.min + datetime.timedelta(days=days)
+        obj.as_js_stamp = j["stamp"]
+    elif k == "Value":
+        obj.value = py_value(j["v"])
+    elif k == "Sample":
+        obj.sample_list = [py_value(v) for v in j["vals"]]
+        obj.counts = j["counts"]
+    elif k == "Text":
+        obj.template = j["tmpl"]
+
+
+class Live:
+    """the caller's objects of a session: ONE structure_def dict (and its nested dicts) and the randomizer
+    objects, kept across builds and edited in place to the configuration of the next step"""
+
+    def __init__(self):
+        self.sd = {}
+        self.pool = []
+        self.pool_json = []
+        self.last = None
+        self.reused = 0
+
+    def _rnd(self, old_obj, old_j, j):
+        if (isinstance(old_obj, TG.Randomizer) and is_rnd(old_j) and old_j["R"] == j["R"]):
+            reconfigure(old_obj, j)
+            self.reused += 1
+            return old_obj
+        return py_value(j)
+
+    def _spec(self, live, old_spec, new_spec, raw_spec):
+        old = dict((k, v) for k, v in (old_spec or []))
+        objs = dict(live)
+        live.clear()
+        for (k, j), (_, raw) in zip(new_spec, raw_spec):
+            if isinstance(raw, dict) and "pool" in raw:
+                live[k] = self.pool[raw["pool"]]
+            elif is_rnd(j):
+                live[k] = self._rnd(objs.get(k), old.get(k), j)
+            else:
+                live[k] = py_value(j)
+
+    def sync(self, desc):
+        pool_json = desc.get("_pool") or []
+        for k, j in enumerate(pool_json):
+            if k < len(self.pool):
+                self.pool[k] = self._rnd(self.pool[k], self.pool_json[k], j)
+            else:
+                self.pool.append(py_value(j))
+        self.pool_json = list(pool_json)
+        last = self.last or {}
+        sd = self.sd
+        if desc.get("name") is not None:
+            sd["name"] = desc["name"]
+        else:
+            sd.pop("name", None)
+        for sect, two_level in (("types", False), ("relations", True)):
+            new = desc.get(sect)
+            if new is None:
+                sd.pop(sect, None)
+                continue
+            livesect = sd.setdefault(sect, {})
+            oldsect = dict((k, v) for k, v in (last.get(sect) or []))
+            keep = dict(livesect)
+            livesect.clear()
+            for name, body in new:
+                d = keep.get(name)
+                if not isinstance(d, dict):
+                    d = {}
+                if two_level:
+                    oldrel = dict((k, v) for k, v in (oldsect.get(name) or []))
+                    keep2 = dict(d)
+                    d.clear()
+                    for c, spec in body:
+                        dd = keep2.get(c)
+                        if not isinstance(dd, dict):
+                            dd = {}
+                        self._spec(dd, oldrel.get(c), spec, raw_of(desc, sect, name, c))
+                        d[c] = dd
+                else:
+                    self._spec(d, oldsect.get(name), body, raw_of(desc, sect, name, None))
+                livesect[name] = d
+        self.last = desc
+        return sd
+
+
+def raw_of(desc, sect, name, child):
+    """the spec as written in the step (with pool references), aligned with the expanded one"""
+    raw = desc.get("_rawstep")
+    if raw is None:
+        return dict(desc[sect])[name] if child is None else dict(dict(desc[sect])[name])[child]
+    return dict(raw[sect])[name] if child is None else dict(dict(raw[sect])[name])[child]
+
+
 def def_shape(x):
     """keys (in order) and identity of the leaves of a structure definition"""
     if isinstance(x, dict):
@@ -734,6 +854,8 @@ class Prop:
             d = gen_def(rng)
             d["relations"] = [r for r in d["relations"] if r[0] != "__root__"]
             yield dict(d, typed=rng.random() < 0.5, stream=gen_stream(rng))
+        for _ in range(70 if tier == "quick" else 500):
+            yield gen_session(rng)
         ndefs = 150 if tier == "quick" else 800
         for _ in range(ndefs):
             d = gen_def(rng)
@@ -744,6 +866,18 @@ class Prop:
                     yield dict(d, typed=not typed, stream=gen_stream(rng))
 
     def shrink_candidates(self, desc):
+        if "ctor" in desc:
+            return
+        if "session" in desc:
+            steps = desc["session"]
+            for k in range(len(steps) - 1, -1, -1):
+                if len(steps) > 1:
+                    yield dict(session=steps[:k] + steps[k + 1:])
+            for k, step in enumerate(steps):
+                for cand in self.shrink_candidates(step):
+                    if set(cand) == set(step):
+                        yield dict(session=steps[:k] + [cand] + steps[k + 1:])
+            return
         st = desc["stream"]
         if st:
             yield dict(desc, stream=st[: len(st) // 2])
@@ -785,9 +919,11 @@ class Prop:
                     oracle_fail=None if ok == want else f"constructor: {j} accepted={ok}", nontrivial=False,
                     key=H.digest(desc), stats=dict(ctor=k, accepted=ok))
 
-    def run(self, desc) -> Case:
+    def run(self, desc, live=None) -> Case:
         if "ctor" in desc:
             return self.run_ctor(desc)
+        if "session" in desc:
+            return self.run_session(desc)
         cls = TypedTree if desc["typed"] else Tree
         st = Stream(desc["stream"])
         fuel = len(desc["relations"]) + 1
@@ -799,7 +935,7 @@ class Prop:
         real = desc.get("real_seed")       # the real random module + the real fabulist answer; the draws are recorded
         with patched(st, real):
             try:
-                sd = py_def(desc)
+                sd = live.sync(desc) if live is not None else py_def(desc)
                 before = def_shape(sd)
                 tree = cls.build_random_tree(sd)
                 if def_shape(sd) != before:
@@ -835,6 +971,29 @@ class Prop:
                                stream_exhausted=st.pos > len(st.draws), calls="+".join(kinds), typed=desc["typed"], real_random=real is not None,
                                in_theorem_domain=rk is not None, uses_callback='":callback"' in _json.dumps(desc),
                                uses_obj_factory='"Obj"' in _json.dumps(desc)))
+
+    def run_session(self, desc):
+        """several builds from ONE structure-definition object and the same randomizer objects, re-configured
+        through their public attributes / by editing the dicts in between; every build must conform to the
+        configuration at the time of that build (the model is evaluated per step on that configuration)"""
+        live = Live()
+        cases = []
+        for k, step in enumerate(desc["session"]):
+            full = expand_pool(step)
+            full["_pool"] = step.get("pool") or []
+            full["_rawstep"] = step
+            cases.append(self.run(full, live=live))
+        fail = None
+        for k, c in enumerate(cases):
+            if c.oracle_fail:
+                tag, _, rest = c.oracle_fail.partition(":")
+                fail = f"{tag}: [session step {k}]{rest}"
+                break
+        return Case(desc=desc, coq_input="(CSeq " + H.coq_list(c.coq_input for c in cases) + ")",
+                    impl_obs=[c.impl_obs for c in cases], oracle_fail=fail,
+                    nontrivial=any(c.nontrivial for c in cases), key=H.digest(desc),
+                    stats=dict(session_steps=len(cases), session_reused_randomizers=min(live.reused, 20),
+                               session_classes="".join("T" if st["typed"] else "P" for st in desc["session"])))
 
     def run_cyclic(self, desc, cls, st):
         """D39: the code recurses without end; observed as RecursionError under a lowered limit."""
@@ -1027,13 +1186,132 @@ def gen_def(rng):
     return dict(name=rng.choice([None, "fmea", ""]), types=types, relations=rels)
 
 
+def regen_same(j, rng):
+    """new parameters for a randomizer of the same class (what re-configuring its public attributes can reach)"""
+    if j["R"] == "Sample" and rng.random() < 0.6:
+        n = len(j["vals"])
+        counts = [rng.choice([0, 0, 1, 2, 3]) for _ in range(n)]
+        if sum(counts) == 0:
+            counts[rng.randrange(n)] = 1
+        return dict(j, counts=counts if rng.random() < 0.85 else None, p=rng.choice(PROBS))
+    for _ in range(200):
+        c = gen_rnd(rng)
+        if c["R"] == j["R"]:
+            if c["R"] == "Sample" and c["counts"] is None and rng.random() < 0.6:
+                c["counts"] = [rng.randint(0, 3) for _ in c["vals"]]
+                if sum(c["counts"]) == 0:
+                    c["counts"][0] = 2
+            return c
+    return j
+
+
+def mutate_spec(spec, rng, count_ok=True):
+    out = []
+    for k, v in spec:
+        r = rng.random()
+        if isinstance(v, dict) and "pool" in v:
+            out.append([k, v])
+        elif k == ":count":
+            out.append([k, gen_count(rng, positive=rng.random() < 0.6) if r < 0.3 else (regen_count(v, rng) if r < 0.6 else v)])
+        elif k in SPECIAL:
+            out.append([k, v])
+        elif is_rnd(v):
+            out.append([k, regen_same(v, rng) if r < 0.6 else (gen_fixed(rng) if r < 0.7 else v)])
+        elif r < 0.25:
+            out.append([k, gen_fixed(rng)])
+        elif r < 0.33:
+            out.append([k, gen_rnd(rng)])
+        elif r < 0.4:
+            continue
+        else:
+            out.append([k, v])
+    if rng.random() < 0.25:
+        free = [k for k in KEYS if k not in [x[0] for x in out]]
+        if free:
+            out.insert(rng.randint(0, len(out)), [rng.choice(free), gen_rnd(rng) if rng.random() < 0.5 else gen_fixed(rng)])
+    return out
+
+
+def regen_count(v, rng):
+    if is_rnd(v) and v["R"] == "RangeI":
+        lo = rng.choice([0, 1, 1, 2])
+        return dict(v, lo=lo, hi=lo + rng.randint(1, 3), p=rng.choice(CPROBS), none=rng.choice([None, None, 1, 2]))
+    if is_rnd(v) and v["R"] == "Sample":
+        vals = [rng.randint(0, 3) for _ in v["vals"]]
+        counts = [rng.randint(0, 2) for _ in vals]
+        if sum(counts) == 0:
+            counts[0] = 1
+        return dict(v, vals=vals, counts=counts)
+    return gen_count(rng)
+
+
+def mutate_step(step, rng):
+    new = dict(step)
+    new["pool"] = [regen_same(j, rng) if rng.random() < 0.7 else j for j in step.get("pool") or []]
+    if step.get("types") is not None:
+        new["types"] = [[t, mutate_spec(sp, rng)] for t, sp in step["types"]]
+        if rng.random() < 0.1:
+            new["types"] = new["types"][1:]
+    elif rng.random() < 0.15:
+        new["types"] = [["*", gen_attrs(rng, 2, 0.5)]]
+    new["relations"] = [[p, [[c, mutate_spec(sp, rng)] for c, sp in cs]] for p, cs in step["relations"]]
+    new["typed"] = (not step["typed"]) if rng.random() < 0.6 else step["typed"]
+    new["name"] = rng.choice([step.get("name"), step.get("name"), None, "t2"])
+    new["stream"] = gen_stream(rng)
+    return new
+
+
+def gen_session(rng):
+    d = gen_def(rng)
+    # randomizer objects shared by several attributes / relations of the definition
+    pool = []
+    for _ in range(rng.choice([0, 1, 1, 2])):
+        j = gen_rnd(rng)
+        if rng.random() < 0.5:
+            vals = [gen_fixed(rng) for _ in range(rng.randint(2, 4))]
+            j = {"R": "Sample", "vals": vals, "counts": [rng.randint(1, 3) for _ in vals], "p": rng.choice([[1, 1], [1, 1], [3, 4]])}
+        pool.append(j)
+    if pool:
+        for p, cs in d["relations"]:
+            for c, spec in cs:
+                if rng.random() < 0.7:
+                    free = [k for k in KEYS if k not in [x[0] for x in spec]]
+                    if free:
+                        spec.insert(rng.randint(0, len(spec)), [rng.choice(free), {"pool": rng.randrange(len(pool))}])
+    # weighted samples are the randomizers with the most state: make sure they occur
+    for p, cs in d["relations"]:
+        for c, spec in cs:
+            for kv in spec:
+                if is_rnd(kv[1]) and kv[1]["R"] == "Sample" and kv[1]["counts"] is None and rng.random() < 0.7:
+                    kv[1]["counts"] = [rng.randint(1, 3) for _ in kv[1]["vals"]]
+    step = dict(d, pool=pool, typed=rng.random() < 0.5, stream=gen_stream(rng))
+    steps = [step]
+    for _ in range(rng.choice([1, 2, 2, 3])):
+        step = mutate_step(step, rng)
+        steps.append(step)
+    return dict(session=steps)
+
+
 def gen_stream(rng):
     n = rng.choice([0, 5, 20, 40, 80, 160, 240])
     hi = rng.choice([3, 10, 200])
     return [[rng.randint(-hi, hi), rng.choice([1, 2, 2, 4, 4, 8, 64]), rng.choice(TEXTS)] for _ in range(n)]
 
 
+def _ticket_step(typed, vals, counts, stream):
+    return dict(typed=typed, name="tickets", types=None, pool=[{"R": "Sample", "vals": vals, "counts": counts, "p": [1, 1]}],
+                relations=[["__root__", [["ticket", [[":count", 4], ["title", "Ticket {idx}"], ["state", {"pool": 0}]]]]],
+                           ["ticket", [["task", [[":count", 2], ["title", "Task {hier_idx}"], ["state", {"pool": 0}]]]]]],
+                stream=stream)
+
+
+_TS = [[n, 1, ""] for n in (0, 1, 2, 3, 4, 5, 6, 7, 8, 9, 10, 11)]
+
 CORPUS = [
+    # one weighted SampleRandomizer object shared by two relations, re-configured between builds (counts, then sample_list),
+    # Tree and TypedTree from the same definition object in both orders
+    dict(session=[_ticket_step(False, ["open", "closed"], [3, 1], _TS), _ticket_step(True, ["open", "closed"], [0, 1], _TS),
+                  _ticket_step(False, ["archived", "deleted"], [1, 1], _TS), _ticket_step(True, ["open", "closed"], [3, 1], _TS)]),
     # D61: attribute names that collide with DictWrapper.__init__'s own parameters
     dict(typed=True, name=None, types=None,
          relations=[["__root__", [["a", [["dict_inst", 1], ["self", "x{idx}"]]]]]], stream=[]),
